@@ -80,7 +80,8 @@ PROPS = {
             'command boundaries, against a ghost monitor of its opaque calls: every caught signal the table hands out with a command action '
             'gets exactly that command run for exactly that signal, once, before the next one is handed out; nothing is run that was not '
             'handed out; other actions run nothing; nothing is run while another signal trap action is running; a divert from an action ends the '
-            'round with that divert. '
+            'round with that divert; run_command (runner.rs) executes a command only right after such a round and not after a diverting action; '
+            'run_exit_trap (trap/exit.rs) runs the EXIT action, if it is a command, exactly once for the condition EXIT and nothing else. '
             'Not decided: take_caught_signal (iter_mut().find_map with a closure that returns a borrow; its per-record step '
             'handle_if_caught is proved), and WHEN traps run (command boundary, interrupted wait): that is scheduling of the '
             'async read-eval loop.'),
